@@ -581,6 +581,9 @@ func main() {
 		if err != nil {
 			c.Internal("%v", err)
 		}
+		if !c.Thorough() && (strings.HasPrefix(fixtures[i].Name, "synth-") || d1Shallow[fixtures[i].Name]) {
+			p.nSpine = 0 // quick tier: pairs only on the smaller real blocks
+		}
 		plans = append(plans, p)
 	}
 	if len(plans) < 15 {
